@@ -16,6 +16,22 @@ from lib.core import Stream, cZ, copt, clist
 MAX_AGE_S = 60.0
 GRID = [-100, -60, -50, -31, -30, -29, -20, -11, -10, -9, -1, 0, 1, 9, 10, 11, 20, 29, 30, 31, 50, 60, 100]
 IDS = frozenset({1})
+# Cases are written in integer units; a case may say that one unit is SCALE watts (a binary
+# fraction or a small integer, so that every float operation of the implementation stays exact).
+# The model is scale-free: an implementation that rounds to whole watts somewhere is not.
+SCALE = 1.0
+SCALES = [0.5, 0.25, 0.125, 3.0]
+
+
+def set_scale(case):
+    global SCALE
+    SCALE = float(case.get("scale", 1.0))
+
+
+def gen_scale(rng, case):
+    if rng.random() < 0.3:
+        case["scale"] = rng.choice(SCALES)
+    return case
 
 
 def _imports():
@@ -28,7 +44,7 @@ def _imports():
 
 def mk_sys(s):
     Power, Bounds, SystemBounds, _, _ = _imports()
-    W = Power.from_watts
+    W = lambda x: Power.from_watts(x * SCALE)
     return SystemBounds(
         timestamp=datetime(2020, 1, 1, tzinfo=timezone.utc),
         inclusion_bounds=None if s["incl"] is None else Bounds(W(s["incl"][0]), W(s["incl"][1])),
@@ -38,7 +54,7 @@ def mk_sys(s):
 
 def mk_prop(e):
     Power, Bounds, _, _, Proposal = _imports()
-    W = Power.from_watts
+    W = lambda x: Power.from_watts(x * SCALE)
     o = lambda x: None if x is None else W(x)
     return Proposal(source_id=e["src"], preferred_power=o(e["pref"]), bounds=Bounds(o(e["lo"]), o(e["hi"])),
                     component_ids=IDS, priority=e["prio"], creation_time=e["time"] / 8.0, set_operating_point=False)
@@ -47,14 +63,16 @@ def mk_prop(e):
 def watts(p):
     if p is None:
         return None
-    w = p.as_watts()
-    assert w == int(w)
+    w = p.as_watts() / SCALE
+    if w != int(w):
+        raise ValueError(f"{p.as_watts()} W is not a whole number of the case's units of {SCALE} W")
     return int(w)
 
 
 def run_history(case):
     """Drive the real Matryoshka; return targets after each event + final queries."""
     _, _, _, Matryoshka, _ = _imports()
+    set_scale(case)
     m = Matryoshka(max_proposal_age=timedelta(seconds=case.get("max_age8", 480) / 8.0))
     cur = mk_sys(case["sys"])
     targets = []
@@ -75,7 +93,7 @@ def run_history(case):
         bl = None if b is None else [watts(b.lower), watts(b.upper)]
         adj = []
         for v in case.get("adjust", []):
-            a = rep.adjust_to_bounds(Power.from_watts(v))
+            a = rep.adjust_to_bounds(Power.from_watts(v * SCALE))
             adj.append([watts(a[0]), watts(a[1])])
         status.append({"prio": q, "bounds": bl, "adjust": adj})
     return {"targets": targets, "stored": watts(m.get_target_power(IDS)), "status": status}
@@ -234,7 +252,7 @@ def gen_case(rng, maxlen=8):
     prios = sorted({e["prio"] for e in case["events"] if e["t"] == "p"} | {rng.choice([-3, 0, 1, 2, 5, 9])})
     case["prios"] = prios
     case["adjust"] = rng.sample(GRID, 4)
-    return case
+    return gen_scale(rng, case)
 
 
 def boundary_cases():
@@ -303,10 +321,12 @@ class MatStream(Stream):
         nz = [t for t in obs["targets"] if t not in (None, 0)]
         if not nz and len(case["events"]) < 2:
             return None
-        return json.dumps([case["sys"], case["events"]], sort_keys=True)
+        return json.dumps([case["sys"], case["events"], case.get("scale")], sort_keys=True)
 
     def labels(self, case, obs):
         out = [f"events={min(len(case['events']), 15)}"]
+        if case.get("scale", 1) != 1:
+            out.append("fractional_or_scaled_watts")
         kinds = {e["t"] for e in case["events"]}
         out += [f"has_{k}" for k in sorted(kinds)]
         prios = [e["prio"] for e in case["events"] if e["t"] == "p"]
@@ -346,6 +366,7 @@ Definition check (c : case_t) : bool :=
 
 def run_calls(case):
     _, _, _, Matryoshka, _ = _imports()
+    set_scale(case)
     m = Matryoshka(max_proposal_age=timedelta(seconds=case.get("max_age8", 480) / 8.0))
     cur = mk_sys(case["sys"])
     out = []
@@ -393,7 +414,7 @@ def gen_calls_case(rng):
                           [0, 1, 8, 80, ma // 2, ma - 1, ma, ma + 1, ma + 20])
     if many:
         case["events"].append({"t": "x", "now": now + rng.choice([0, ma // 2, ma // 2 + 1, ma]), "must": True})
-    return case
+    return gen_scale(rng, case)
 
 
 class CallsStream(Stream):
@@ -497,5 +518,184 @@ class CallsStream(Stream):
                 break
             if not envelope_ok(s, stored):
                 out.append({"what": f"envelope: target in force {stored} after call {i} is outside the usable bounds {s}", "finding": None})
+                break
+        return out
+
+
+# ============================================================================= stream `groups`
+# One Matryoshka instance serving several component groups: the same actor identity
+# (priority, source_id) may have proposals in more than one group (pools created with the
+# same name and priority for different component sets), drop_old_proposals sweeps every
+# bucket, and proposals carry either value of set_operating_point (irrelevant to the
+# computation: the model's proposal has no such field).
+NGROUPS = 3
+GROUPS_HEADER = """From Verif Require Import model.PowerManager.
+Inductive gev := GProp (g : nat) (p : proposal) (must : bool) | GExp (g : nat) (now : Z) (must : bool) | GBounds (s : sysb).
+Fixpoint upd (gs : list grp) (k : nat) (g : grp) : list grp :=
+  match gs, k with
+  | [], _ => []
+  | _ :: r, O => g :: r
+  | x :: r, S k' => x :: upd r k' g
+  end.
+Definition empty_grp := mkG false [] None.
+(* one public call on one group; the sweep of drop_old_proposals covers every group.
+   Observation: the returned value and get_target_power of every group afterwards *)
+Fixpoint grun (ma : Z) (gs : list grp) (s : sysb) (h : list gev) : list (option Z * list (option Z)) :=
+  match h with
+  | [] => []
+  | GBounds s' :: h' => (None, map g_target gs) :: grun ma gs s' h'
+  | GProp k p must :: h' =>
+      let '(g', r) := gcalc (nth k gs empty_grp) (Some p) s must in
+      let gs' := upd gs k g' in (r, map g_target gs') :: grun ma gs' s h'
+  | GExp k now must :: h' =>
+      let gs1 := map (expire_grp ma now) gs in
+      let '(g', r) := gcalc (nth k gs1 empty_grp) None s must in
+      let gs' := upd gs1 k g' in (r, map g_target gs') :: grun ma gs' s h'
+  end.
+Definition case_t := (Z * sysb * list gev * list (option Z * list (option Z)))%type.
+Definition check (c : case_t) : bool :=
+  let '(ma, s, h, exp) := c in
+  list_eqb (pair_eqb optZ_eqb (list_eqb optZ_eqb)) (grun ma [empty_grp; empty_grp; empty_grp] s h) exp.
+"""
+
+
+def run_groups(case):
+    _, _, _, Matryoshka, _ = _imports()
+    import dataclasses
+    set_scale(case)
+    m = Matryoshka(max_proposal_age=timedelta(seconds=case.get("max_age8", 480) / 8.0))
+    cur = mk_sys(case["sys"])
+    ids = [frozenset({k + 1}) for k in range(NGROUPS)]
+    out = []
+    for e in case["events"]:
+        if e["t"] == "p":
+            p = dataclasses.replace(mk_prop(e), component_ids=ids[e["g"]], set_operating_point=bool(e.get("op")))
+            r = watts(m.calculate_target_power(ids[e["g"]], p, cur, must_return_power=e["must"]))
+        elif e["t"] == "x":
+            m.drop_old_proposals(e["now"] / 8.0)
+            r = watts(m.calculate_target_power(ids[e["g"]], None, cur, must_return_power=e["must"]))
+        else:
+            cur = mk_sys(e["sys"])
+            r = None
+        out.append([r, [watts(m.get_target_power(i)) for i in ids]])
+    return {"calls": out}
+
+
+def gen_groups_case(rng):
+    case = gen_calls_case(rng)
+    shared = rng.random() < 0.7          # the same actor identities appear in several groups
+    for e in case["events"]:
+        if e["t"] in ("p", "x"):
+            e["g"] = rng.randrange(NGROUPS)
+        if e["t"] == "p":
+            if not shared:
+                e["src"] = f"{e['src']}g{e['g']}"
+            if rng.random() < 0.4:
+                e["op"] = True
+    return case
+
+
+class GroupsStream(CallsStream):
+    name = "groups"
+    coq_header = GROUPS_HEADER
+
+    def gen(self, rng, tier):
+        P = lambda g, src, prio, pref, lo, hi, t, op=False: {"t": "p", "g": g, "src": src, "prio": prio, "pref": pref, "lo": lo,
+                                                             "hi": hi, "time": t, "must": True, "op": op}
+        S = {"incl": [-200, 200], "excl": [-10, 10]}
+        # an actor's old proposal in group 0 expires while its fresh one in group 1 must stay
+        yield {"sys": S, "events": [P(0, "a", 3, 50, None, None, 0), P(1, "b", 1, 100, None, None, 400), P(1, "a", 3, None, -40, 40, 440),
+                                    {"t": "x", "g": 1, "now": 500, "must": True}, {"t": "x", "g": 0, "now": 500, "must": True}]}
+        # the same actor re-proposes with the other value of set_operating_point: still a replacement
+        yield {"sys": S, "events": [P(0, "a", 3, 100, 50, 150, 0), P(0, "a", 3, -80, -120, -40, 8, op=True), P(0, "b", 1, -100, None, None, 8)]}
+        for _ in range(700 if tier == "quick" else 12000):
+            yield gen_groups_case(rng)
+
+    def run_impl(self, case):
+        return run_groups(case)
+
+    def _events(self, case):
+        rank = src_rank(case)
+        ev = []
+        for e in case["events"]:
+            if e["t"] == "p":
+                ev.append(f"(GProp {e['g']}%nat (mkP {cZ(e['prio'])} {cZ(rank[e['src']])} {copt(e['pref'])} {copt(e['lo'])} "
+                          f"{copt(e['hi'])} {cZ(e['time'] * 125000)}) {'true' if e['must'] else 'false'})")
+            elif e["t"] == "x":
+                ev.append(f"(GExp {e['g']}%nat {cZ(e['now'] * 125000)} {'true' if e['must'] else 'false'})")
+            else:
+                ev.append(f"(GBounds {c_sys(e['sys'])})")
+        return "[" + "; ".join(ev) + "]"
+
+    def to_coq(self, case, obs):
+        exp = "[" + "; ".join(f"({copt(a)}, {clist(b, copt)})" for a, b in obs["calls"]) + "]"
+        return f"(({cZ(case.get('max_age8', 480) * 125000)}, {c_sys(case['sys'])}, {self._events(case)}, {exp}) : case_t)"
+
+    def show_term(self, case, obs):
+        return (f"grun {cZ(case.get('max_age8', 480) * 125000)} [empty_grp; empty_grp; empty_grp] "
+                f"{c_sys(case['sys'])} {self._events(case)}")
+
+    def key(self, case, obs):
+        if not any(b not in (None, 0) for _, bs in obs["calls"] for b in bs):
+            return None
+        return json.dumps([case["sys"], case["events"], case.get("max_age8")], sort_keys=True)
+
+    def labels(self, case, obs):
+        out = []
+        used = {e["g"] for e in case["events"] if e["t"] == "p"}
+        out.append(f"groups_used={len(used)}")
+        by_actor = {}
+        for e in case["events"]:
+            if e["t"] == "p":
+                by_actor.setdefault((e["prio"], e["src"]), set()).add(e["g"])
+        if any(len(v) > 1 for v in by_actor.values()):
+            out.append("actor_in_several_groups")
+        flags = {}
+        for e in case["events"]:
+            if e["t"] == "p":
+                flags.setdefault((e["g"], e["prio"], e["src"]), set()).add(bool(e.get("op")))
+        if any(len(v) > 1 for v in flags.values()):
+            out.append("actor_changes_operating_point_flag")
+        if any(e["t"] in ("p", "x") and not e["must"] for e in case["events"]):
+            out.append("must_return_power_false")
+        return sorted(out)
+
+    def oracle(self, case, obs):
+        """After every call on group g, g's target in force is the target of a fresh instance fed
+        only g's live proposals (latest per actor, not older than the maximum age at the last sweep);
+        the other groups' targets in force do not change."""
+        out = []
+        systems = [case["sys"]] + [e["sys"] for e in case["events"] if e["t"] == "b"]
+        if any(x["incl"] is None and x["excl"] is None for x in systems):
+            return out
+        s = case["sys"]
+        ma = case.get("max_age8", 480)
+        prev = [None] * NGROUPS
+        for i, (e, (r, stored)) in enumerate(zip(case["events"], obs["calls"])):
+            if e["t"] == "b":
+                s = e["sys"]
+                continue
+            g = e["g"]
+            if any(stored[k] != prev[k] for k in range(NGROUPS) if k != g):
+                out.append({"what": f"other-group: call {i} on group {g} changed the targets in force from {prev} to {stored}", "finding": None})
+                break
+            prev = list(stored)
+            if not wf_sys(s):
+                continue
+            prefix = case["events"][: i + 1]
+            # sweeps are global, proposals are per group
+            mine = [x for x in prefix if x["t"] == "x" or (x["t"] == "p" and x["g"] == g)]
+            live = list(live_proposals(mine, ma).values())
+            accepted = any(x["t"] == "p" for x in mine)
+            if live:
+                fresh = run_history({"sys": s, "events": [{**p, "t": "p"} for p in live], "max_age8": ma})["targets"][-1]
+            else:
+                fresh = 0 if accepted else None
+            if stored[g] != fresh:
+                out.append({"what": f"in-force: after call {i} on group {g} get_target_power() = {stored[g]} but the live proposals of "
+                                    f"that group under the bounds of that call give {fresh}", "finding": None})
+                break
+            if r is not None and r != stored[g]:
+                out.append({"what": f"return: call {i} returned {r} but the target in force is {stored[g]}", "finding": None})
                 break
         return out
